@@ -141,10 +141,12 @@ fn is_ambiguous_value(s: &str, yaml_12: bool) -> bool {
 
     // Quote non-YAML-1.2 float spellings too (e.g. "nan", "inf").
     // This preserves round-tripping of strings and matches tests.
-    s.eq_ignore_ascii_case("nan")
-        || s.eq_ignore_ascii_case("inf")
-        || s.eq_ignore_ascii_case("+inf")
-        || s.eq_ignore_ascii_case("-inf")
+    // Every spelling the reader's float parser takes for a special value: an optional sign
+    // followed by nan / inf / infinity in any letter case.
+    let unsigned = s.strip_prefix(['+', '-']).unwrap_or(s);
+    unsigned.eq_ignore_ascii_case("nan")
+        || unsigned.eq_ignore_ascii_case("inf")
+        || unsigned.eq_ignore_ascii_case("infinity")
 }
 
 /// Controls quoting behavior of the serializer.
